@@ -114,6 +114,9 @@ pub axiom fn ax_exp_add(x: real, y: real) ensures exp_spec(x + y) == exp_spec(x)
 pub axiom fn ax_ln_mul(x: real, y: real) requires x > 0real, y > 0real ensures ln_spec(x * y) == ln_spec(x) + ln_spec(y);
 pub uninterp spec fn floor_spec(a: real) -> int;
 pub broadcast axiom fn ax_floor(x: real) ensures (#[trigger] floor_spec(x)) as real <= x, x < (floor_spec(x) + 1) as real;
+pub broadcast proof fn lemma_floor_int(i: int) ensures #[trigger] floor_spec(i as real) == i { ax_floor(i as real); }
+pub proof fn lemma_floor_mono(x: real, y: real) requires x <= y ensures floor_spec(x) <= floor_spec(y) { ax_floor(x); ax_floor(y); }
+pub open spec fn to_usize_spec(x: int) -> usize { if x <= 0 { 0usize } else if x >= usize::MAX { usize::MAX } else { x as usize } }
 // f64::round: half away from zero
 pub open spec fn round_spec(x: real) -> int { if x >= 0real { floor_spec(x + 0.5real) } else { -floor_spec(-x + 0.5real) } }
 
@@ -165,12 +168,10 @@ impl R {
     pub fn floor(self) -> (r: R) ensures r.v() == floor_spec(self.v()) as real { R { x: self.x.floor() } }
     #[verifier::external_body]
     pub fn round(self) -> (r: R) ensures r.v() == round_spec(self.v()) as real { R { x: self.x.round() } }
-    // `as usize`: saturating conversion of an integral value
+    // `as usize` on a float: truncation toward zero, saturating (NaN does not exist in the ideal model)
     #[verifier::external_body]
     pub fn to_usize(self) -> (r: usize)
-        ensures self.v() <= 0real ==> r == 0,
-                0real <= self.v() <= usize::MAX as real ==> r as real == floor_spec(self.v()) as real,
-                self.v() >= usize::MAX as real ==> r == usize::MAX,
+        ensures r == to_usize_spec(if self.v() >= 0real { floor_spec(self.v()) } else { 0int }),
     { self.x as usize }
     #[verifier::external_body]
     pub fn is_zero(&self) -> (r: bool) ensures r == (self.v() == 0real) { self.x == 0.0 }
